@@ -1,5 +1,5 @@
 From Coq Require Import Extraction ExtrOcamlBasic ExtrOcamlString.
-From Oras Require Import Base.Prelude Model.Referrers Model.Merge.
+From Oras Require Import Base.Prelude Model.Referrers Model.Merge Model.Live Model.MergeFine.
 Extraction Language OCaml.
 Extraction "xc14.ml" apply_changes remove_empty filter_referrers spec_apply member_after
-  step init run vis_summary set_caps referrer_art api_art tag_classes list_referrers.
+  step init run vis_summary set_caps referrer_art api_art tag_classes list_referrers lvis_summary fvis_summary pool_trace.
